@@ -969,9 +969,10 @@ def MaybeUncertain.strip : MaybeUncertain α → PyVal α
   | .plain v => v
   | .uncertain q _ => .qty q
 
-/-- `allclose` with possibly uncertain arguments (units.py 524-527, then 529-546) -/
-def allcloseU (a b : MaybeUncertain α) (rtol : α) (atol : Option (PyVal α)) : Except Err Bool :=
-  allcloseScalar a.strip b.strip rtol atol
+/-- `allclose` with possibly uncertain arguments: `a`, `b` and (since 6280738) `atol` are unwrapped to their nominal quantity
+    by the three leading clauses of `allclose`, then the plain comparison runs -/
+def allcloseU (a b : MaybeUncertain α) (rtol : α) (atol : Option (MaybeUncertain α)) : Except Err Bool :=
+  allcloseScalar a.strip b.strip rtol (atol.map MaybeUncertain.strip)
 
 end Ordered
 
